@@ -30,7 +30,10 @@ Consistent(o) ==
   /\ o.el = LineOf(o, o.e) /\ o.ec = ColOf(o, o.e)
 \* it covers the offending token or expression
 Localises(o) == IF o.syntax THEN o.s >= o.fs /\ o.s <= o.len
-                ELSE (o.s < o.fe /\ o.e > o.fs) \/ (o.s = o.e /\ o.fs <= o.s /\ o.s <= o.fe)
+                ELSE /\ (o.s < o.fe /\ o.e > o.fs) \/ (o.s = o.e /\ o.fs <= o.s /\ o.s <= o.fe)
+                     \* where the planting names the offending token itself (xs..xe, e.g. the missing field of a path, the name
+                     \* of an undefined variable), the span has to touch THAT token, not just the expression around it
+                     /\ (o.xs < o.xe => (o.s < o.xe /\ o.e > o.xs))
 RightTemplate(o) == o.file = o.host
 \* the report quotes the line the span starts on
 Quoted(o) == o.dispok /\ (Member(o.sl, o.blank) \/ Member(o.sl, o.shown))
